@@ -88,6 +88,7 @@ def main():
     ck.bound("labelling step: ONE iteration of the sweep on an UNBOUNDED graph and label array (rely/guarantee), any number of threads", "prange footprints: two abstract iterations, unbounded arrays",
              "find_ND_labels: every edge list of <= %d edges on <= %d nodes (symbolic endpoints, incl. self loops and duplicates)" % (NE, NN), "get_clean_labels: every component-minimum labelling of <= 5 nodes",
              "numbapkmerge/pk2dmerge: <= 3 2D peaks with symbolic labels in 0..1, symbolic pixel counts, intensities, positions, per-frame omega/dty/scale factors", "termination of the sweep loop under racy interleavings is not claimed")
+    ck.stub("numba.get_num_threads() inside the kernels returns any of %s (explorer fork): the thread count is environment" % (thread_counts(),))
     ck.assume("numba executes py_func's semantics; prange iterations may run in any order and interleave at array accesses (reads return any value the invariant allows)", "integers as mathematical integers (no overflow at these sizes)", "real-arithmetic model for intensities")
 
     # ---------------------------------------------------------------- 1. numbalabelNd: rely/guarantee step
@@ -151,7 +152,7 @@ def main():
                 sweeps[0] += 1
                 if sweeps[0] > 4 * nn + 8: raise RuntimeError("sweep loop did not reach a fixed point within %d sweeps" % sweeps[0])
                 return real_sweep(*a, **k)
-            with pysym.patched((PR, "numbalabelNd", sweep), (PR, "get_clean_labels", PR.get_clean_labels.py_func)):
+            with thread_env(PR), pysym.patched((PR, "numbalabelNd", sweep), (PR, "get_clean_labels", PR.get_clean_labels.py_func)):
                 try: n, labels = PR.find_ND_labels(np.array(I, int), np.array(J, int), nn, verbose=0)
                 except (RuntimeError, AssertionError) as e:
                     return dict(goals=[("labelling terminates with component labels (%s)" % str(e)[:60], z3.BoolVal(False))], inputs={}, edges=list(zip(I, J)))
@@ -177,7 +178,7 @@ def main():
                 if lab[v] != v if v < x else False: raise symcore.PathEnd("not a root")   # ... and itself a root
                 lab.append(v)
             arr = np.array(lab, int); before = list(lab)
-            nlab = PR.get_clean_labels.py_func(arr)
+            with thread_env(PR): nlab = PR.get_clean_labels.py_func(arr)
             roots = sorted(set(before)); want = [roots.index(v) for v in before]
             return dict(goals=[("dense relabelling preserves the partition", z3.BoolVal(list(arr) == want and nlab == len(roots)))], inputs={}, before=before)
         return run
@@ -284,8 +285,12 @@ def uf_components(I, J, n):
         return x
     for a, b in zip(I, J): ra, rb = find(a), find(b); par[max(ra, rb)] = min(ra, rb)
     roots = sorted(set(find(x) for x in range(n))); return [roots.index(find(x)) for x in range(n)], len(roots)
+_SUBMEMO = {}
 def _sub(fn):
-    """run a confirmation family on the real (jitted) kernels in a subprocess: a non-terminating sweep must not hang the check"""
+    """run a confirmation family on the real (jitted) kernels in a subprocess: a non-terminating sweep must not hang the check (memoised: one run per family and process)"""
+    if fn not in _SUBMEMO: _SUBMEMO[fn] = _sub1(fn)
+    return _SUBMEMO[fn]
+def _sub1(fn):
     import subprocess
     code = "import sys; sys.path.insert(0, %r); sys.path.insert(0, %r); sys.path.insert(0, %r)\nimport C15, ImageD11.sinograms.properties as PR\nr = getattr(C15, %r)(PR)\nprint('RESULT', r)" % (
         os.path.join(common.VERIF, "lib"), os.path.join(common.VERIF, "props"), common.REPO, fn)
@@ -297,7 +302,33 @@ def _sub(fn):
 def find_nd_family(PR): return _sub("_find_nd_family")
 def clean_family(PR): return _sub("_clean_family")
 def merge_family(PR): return _sub("_merge_family")
+class NumbaEnv:
+    """the number of numba threads is environment: numba.get_num_threads() returns ANY value the user may have set (1, 2, 3 or the start-up count),
+    decided as an explorer fork; everything else is the real numba module"""
+    def __init__(s, real): s._r = real
+    def __getattr__(s, k): return getattr(s._r, k)
+    def get_num_threads(s): return EX.pick(thread_counts())
+def thread_counts():
+    import numba
+    return sorted(set([1, 2, 3, int(numba.config.NUMBA_NUM_THREADS)]))
+def thread_env(PR):
+    import numba
+    tr = [(PR, "numba", NumbaEnv(numba))] if getattr(PR, "numba", None) is numba else []
+    for nm, v in list(vars(PR).items()):      # helper kernels called from the py_func bodies run as python too
+        pf = getattr(v, "py_func", None)
+        if pf is not None and nm not in ("numbalabelNd", "get_clean_labels"): tr.append((PR, nm, pf))
+    return pysym.patched(*tr)
 def _find_nd_family(PR):
+    import numba
+    t0 = numba.get_num_threads()
+    try:
+        for k in thread_counts()[:-1]:          # user-selected thread counts below the start-up count
+            numba.set_num_threads(k)
+            for n, edges in ((4, [(2, 3)]), (5, [(1, 2), (3, 4)]), (6, [(0, 5), (2, 3), (3, 4)]), (40, [(a, a + 1) for a in range(0, 38, 3)])):
+                I = np.array([e[0] for e in edges]); J = np.array([e[1] for e in edges])
+                nl, lab = PR.find_ND_labels(I.copy(), J.copy(), n, verbose=0); want, nw = uf_components(I, J, n)
+                if list(lab) != want or nl != nw: return "find_ND_labels(i=%s, j=%s, npks=%d) with numba.set_num_threads(%d) -> %d labels %s, connected components give %d labels %s" % (I.tolist(), J.tolist(), n, k, nl, list(lab), nw, want)
+    finally: numba.set_num_threads(t0)
     for n in (3, 4, 5):
         for ne in (1, 2, 3):
             for edges in itertools.product(itertools.product(range(n), repeat=2), repeat=ne):
@@ -308,9 +339,15 @@ def _find_nd_family(PR):
             if n == 5 and ne == 2: break
     return None
 def _clean_family(PR):
-    for lab in ([0], [0, 0, 2], [0, 1, 1, 0, 3], [0, 0, 0, 3, 3]):
-        a = np.array(lab); n = PR.get_clean_labels(a); roots = sorted(set(lab)); want = [roots.index(v) for v in lab]
-        if list(a) != want or n != len(roots): return "get_clean_labels(%s) -> %s (n=%d), expected %s" % (lab, list(a), n, want)
+    import numba
+    t0 = numba.get_num_threads()
+    try:
+        for k in thread_counts():
+            numba.set_num_threads(k)
+            for lab in ([0], [0, 0, 2], [0, 1, 1, 0, 3], [0, 0, 0, 3, 3], list(range(40)), [0, 0] + list(range(2, 37)) + [36, 2, 5]):
+                a = np.array(lab); n = PR.get_clean_labels(a); roots = sorted(set(lab)); want = [roots.index(v) for v in lab]
+                if list(a) != want or n != len(roots): return "get_clean_labels(%s) with numba.set_num_threads(%d) -> %s (n=%d), expected %s" % (lab, k, list(a), n, want)
+    finally: numba.set_num_threads(t0)
     return None
 def _merge_family(PR):
     rng = np.random.RandomState(5)
